@@ -609,7 +609,14 @@ class BaseIOStream:
             self._read_max_bytes = None
             self._read_partial = False
             if self._user_read_buffer:
-                self._read_buffer = self._after_user_read_buffer or bytearray()
+                # Bytes already received into the caller's buffer were never
+                # delivered by a successful read: keep a copy buffered (as a
+                # failed read_bytes does) so read_until_close can return them.
+                received = min(self._read_buffer_size, len(self._read_buffer))
+                buf = bytearray(memoryview(self._read_buffer)[:received])
+                if self._after_user_read_buffer:
+                    buf += self._after_user_read_buffer
+                self._read_buffer = buf
                 self._after_user_read_buffer = None
                 self._read_buffer_size = len(self._read_buffer)
                 self._user_read_buffer = False
